@@ -1,6 +1,6 @@
 """C37 worker: loads the tree library (variant from argv) and feeds it documents.
 
-usage: python -m mc.checks._c37_worker <variant> <input.jsonl> <output.jsonl> <progress-file>
+usage: python -m mc.checks._c37_worker <variant>     (fork server, see main())
 
 For every input line {"i": id, "x": text} it records the id in the progress file *before* touching the
 library, then calls mj_parseXMLString (+ mj_compile when a spec comes back) exactly as a C client would,
@@ -20,17 +20,8 @@ import os
 import sys
 
 
-def main():
-    variant, inp, outp, prog = sys.argv[1:5]
-    sys.path.insert(0, os.path.dirname(os.path.dirname(os.path.dirname(os.path.abspath(__file__)))))
-    from mc import build, mj
-    from mc.checks import _c32_gen as G
-    if variant == "asan":
-        path = os.environ["C37_ASAN_LIB"]
-        orig = build.ensure
-        build.ensure = lambda v="rel", with_support=True: path if v == "asan" else orig(v, with_support)
-    lib = mj.load(variant)
-    vfs = G.make_vfs(lib)
+def serve(lib, vfs, inp, outp, prog):
+    """Process one batch (see module docstring)."""
     err = ctypes.create_string_buffer(4000)
     pfd = os.open(prog, os.O_WRONLY | os.O_CREAT, 0o644)
     cfn = lib.c.vg_mj_parseXMLString
@@ -40,6 +31,7 @@ def main():
     ccomp.argtypes = [ctypes.c_void_p, ctypes.c_void_p, ctypes.c_void_p]
     ccomp.restype = ctypes.c_int
     vfsp = ctypes.addressof(vfs)
+    from mc import mj
     with open(inp) as fin, open(outp, "w") as fout:
         for line in fin:
             d = json.loads(line)
@@ -78,8 +70,48 @@ def main():
             fout.flush()
     os.pwrite(pfd, b"%-12d" % -1, 0)
     os.close(pfd)
+
+
+def main():
+    """Fork server: the library is loaded once (that costs ~15 s under ASan); every batch runs in a forked child, so a
+    crash costs a fork, not a start-up.  Protocol on stdin/stdout (one line each):
+        RUN <in> <out> <prog> <err>   ->  PID <child pid>   ...   EXIT <wait status>"""
+    variant = sys.argv[1]
+    sys.path.insert(0, os.path.dirname(os.path.dirname(os.path.dirname(os.path.abspath(__file__)))))
+    from mc import build, mj
+    from mc.checks import _c32_gen as G
+    if variant == "asan":
+        path = os.environ["C37_ASAN_LIB"]
+        orig = build.ensure
+        build.ensure = lambda v="rel", with_support=True: path if v == "asan" else orig(v, with_support)
+    lib = mj.load(variant)
+    vfs = G.make_vfs(lib)
+    sys.stdout.write("READY\n")
     sys.stdout.flush()
-    os._exit(0)      # skip interpreter teardown (ASan leak/atexit noise is not part of the scenario)
+    for line in sys.stdin:
+        parts = line.split()
+        if not parts:
+            continue
+        if parts[0] == "QUIT":
+            break
+        _, inp, outp, prog, errp = parts
+        pid = os.fork()
+        if pid == 0:
+            try:
+                fd = os.open(errp, os.O_WRONLY | os.O_CREAT | os.O_TRUNC, 0o644)
+                os.dup2(fd, 2)
+                serve(lib, vfs, inp, outp, prog)
+                os._exit(0)
+            except BaseException:
+                import traceback
+                traceback.print_exc()
+                os._exit(97)
+        sys.stdout.write("PID %d\n" % pid)
+        sys.stdout.flush()
+        _, status = os.waitpid(pid, 0)
+        sys.stdout.write("EXIT %d\n" % status)
+        sys.stdout.flush()
+    os._exit(0)
 
 
 if __name__ == "__main__":
